@@ -147,12 +147,6 @@ def run(ctx):
         for k, v in s["root_executed"].items():
             root_exec[k] = root_exec.get(k, 0) + v
     covered = sum(s["abstract_states_covered"] for s in summaries)
-    never = [" ".join(c["path"]) for c in usable if not c["sig"]["sub"] and not root_exec.get(" ".join(c["path"]))]
-    if never:
-        raise InfraError("vacuity: root never got these commands executed within the bound: %s" % never)
-    for want in ("root:exec", "user:exec", "user:forbidden", "user:help", "root:help"):
-        if not counts.get(want):
-            raise InfraError("vacuity: no real observation of class %s" % want)
 
     violations = []
     seen = set()
@@ -171,6 +165,15 @@ def run(ctx):
                     "how": "ctlcmd.Run(nil, argv, uid) with the verif CommandHandler installed (TestVerifSnapctl)"}))
     if viol_n > len(vrecs):
         notes.append("%d violating real executions in total (only the first 400 per shard are listed)" % viol_n)
+
+    # vacuity guards (only when there is nothing to report: a violation is a verdict, a thin run is not)
+    if not violations:
+        never = [" ".join(c["path"]) for c in usable if not c["sig"]["sub"] and not root_exec.get(" ".join(c["path"]))]
+        if never:
+            raise InfraError("vacuity: root never got these commands executed within the bound: %s" % never)
+        for want in ("root:exec", "user:exec", "user:forbidden", "user:help", "root:help"):
+            if not counts.get(want):
+                raise InfraError("vacuity: no real observation of class %s" % want)
 
     # spec-level counterexamples must be reproduced by the real code, else the spec is wrong
     for cex in design_cex:
